@@ -6,13 +6,13 @@ CONSTANTS
   Routes <- R_none
   SR <- SR_both
   INH = FALSE
-  Windows <- W_rec
+  Windows <- W_none
   Used = {"A1", "A2"}
   SilLib = {"S1"}
-  MaxTime = 9
-  MaxPosts = 3
-  MaxSils = 1
-  MaxReloads = 0
+  MaxTime = 8
+  MaxPosts = 2
+  MaxSils = 0
+  MaxReloads = 1
   RetryGap = 1
   MinTimeout = 3
   RetrySlack = 1
